@@ -3,8 +3,14 @@ C03 — Every spelling of a schema tag resolves to the same node and canonical f
 Theorems about `Schema.register`, `Table.get`, `Schema.walk`, `Schema.findComps`.
 `KeysNodup` (no folded form is registered for two different entries) is the well-formedness
 condition; the driver evaluates it on every bundled vocabulary.
+
+The last part (from "C03, bulk conversion") is about `Schema.tagForm/convertText/convertFrame`
+(Model/SchemaBulk.lean): `df_util.convert_to_form`, `HedString.get_as_short/get_as_long`; it lifts the
+tag-level theorems through the parse tree with the round-trip theorems of C02.
 -/
 import HedVerif.Model.Schema
+import HedVerif.Model.SchemaBulk
+import HedVerif.Props.C02
 
 namespace HedVerif.Schema
 
@@ -143,8 +149,8 @@ theorem splitSlash_joinSlash (n : Name) (hne : n ≠ []) (h : NoSlash n) :
 /-- If the first `k` prefixes beyond `k0` are all known and the next one is not (or the text ends),
 the walk stops exactly there with the entry of the last known prefix. -/
 theorem walk_spec (tbl : Table) (w : Name) (e : Nat → Nat) (k : Nat) (hk : k ≤ w.length)
-    (hknown : ∀ j, 1 ≤ j → j ≤ k → tbl.get (w.take j) = some (e j))
-    (hstop : k < w.length → tbl.get (w.take (k + 1)) = none)
+    (hknown : ∀ j, 1 ≤ j → j ≤ k → walkGet tbl (w.take j) = some (e j))
+    (hstop : k < w.length → walkGet tbl (w.take (k + 1)) = none)
     (k0 : Nat) (hk0 : k0 ≤ k) (cur : Option Nat) (hcur : 1 ≤ k0 → cur = some (e k0))
     (fuel : Nat) (hfuel : k - k0 ≤ fuel) :
     walk tbl w fuel cur k0 = (if k0 = k then cur else some (e k)).map (·, k) := by
@@ -216,8 +222,8 @@ theorem registered_forms_disjoint (v : Vocab) (hwf : WF v) (k : Name) (i j : Nat
 
 /-- **The walk stops at the deepest known prefix.** -/
 theorem walk_stops (tbl : Table) (w : Name) (e : Nat → Nat) (k : Nat) (hk1 : 1 ≤ k) (hk : k ≤ w.length)
-    (hknown : ∀ j, 1 ≤ j → j ≤ k → tbl.get (w.take j) = some (e j))
-    (hstop : k < w.length → tbl.get (w.take (k + 1)) = none) :
+    (hknown : ∀ j, 1 ≤ j → j ≤ k → walkGet tbl (w.take j) = some (e j))
+    (hstop : k < w.length → walkGet tbl (w.take (k + 1)) = none) :
     walk tbl w w.length none 0 = some (e k, k) := by
   have := walk_spec tbl w e k hk hknown hstop 0 (by omega) none (by omega) w.length (by omega)
   rw [this]
@@ -232,8 +238,8 @@ terms is itself a schema tag, which is the invalid-parent error. -/
 theorem remainder_verbatim (v : Vocab) (fold : Str → Str) (comps : Name) (e : Nat → Nat) (k : Nat)
     (hk1 : 1 ≤ k) (hk : k < comps.length)
     (hnot : v.table.get (foldName fold comps) = none)
-    (hknown : ∀ j, 1 ≤ j → j ≤ k → v.table.get ((foldName fold comps).take j) = some (e j))
-    (hstop : v.table.get ((foldName fold comps).take (k + 1)) = none) :
+    (hknown : ∀ j, 1 ≤ j → j ≤ k → walkGet v.table ((foldName fold comps).take j) = some (e j))
+    (hstop : walkGet v.table ((foldName fold comps).take (k + 1)) = none) :
     findComps v fold comps =
       match v.valueChild fold (e k) with
       | some ch => .found ch ('/' :: joinSlash (comps.drop k))
@@ -1165,4 +1171,1172 @@ example : find (Vocab.build id exTags) id ((Vocab.build id exTags).shortName 3 +
     (by decide) [['C']] rfl ['1', '2'] [] (by unfold NoSlash; decide) (by decide) 3 ['/', '1', '2'] (by decide)
 end NonVacuity
 
+end HedVerif.C03
+
+/-! ## C03, bulk conversion (`df_util.convert_to_form`, `HedString.get_as_short/get_as_long`) -/
+
+namespace HedVerif.Schema
+
+/-! ### `splitSlash` and `joinSlash` are inverse -/
+
+theorem splitSlash_go_ne_nil (cur s : Str) : splitSlash.go cur s ≠ [] := by
+  induction s generalizing cur with
+  | nil => simp [splitSlash.go]
+  | cons c cs ih =>
+    simp only [splitSlash.go]
+    split
+    · simp
+    · exact ih _
+
+theorem splitSlash_ne_nil (s : Str) : splitSlash s ≠ [] := splitSlash_go_ne_nil [] s
+
+theorem joinSlash_cons (a : Str) (l : Name) (h : l ≠ []) :
+    joinSlash (a :: l) = a ++ '/' :: joinSlash l := by
+  cases l with
+  | nil => exact absurd rfl h
+  | cons b bs => rfl
+
+theorem joinSlash_go (cur s : Str) : joinSlash (splitSlash.go cur s) = cur.reverse ++ s := by
+  induction s generalizing cur with
+  | nil => simp [splitSlash.go, joinSlash]
+  | cons c cs ih =>
+    simp only [splitSlash.go]
+    split
+    · rename_i h
+      have hc : c = '/' := by simpa using h
+      rw [joinSlash_cons _ _ (splitSlash_go_ne_nil _ _), ih]
+      simp [hc]
+    · rw [ih]; simp
+
+theorem joinSlash_splitSlash (s : Str) : joinSlash (splitSlash s) = s := by
+  unfold splitSlash
+  simpa using joinSlash_go [] s
+
+theorem splitSlash_go_noSlash (cur s : Str) (hc : '/' ∉ cur) : NoSlash (splitSlash.go cur s) := by
+  induction s generalizing cur with
+  | nil =>
+    intro c hc'
+    simp only [splitSlash.go, List.mem_singleton] at hc'
+    subst hc'
+    simpa using hc
+  | cons x xs ih =>
+    simp only [splitSlash.go]
+    split
+    · intro c hc'
+      simp only [List.mem_cons] at hc'
+      rcases hc' with rfl | h
+      · simpa using hc
+      · exact ih [] (by simp) c h
+    · rename_i h
+      apply ih
+      intro hm
+      simp only [List.mem_cons] at hm
+      rcases hm with rfl | hm
+      · simp at h
+      · exact hc hm
+
+theorem splitSlash_noSlash (s : Str) : NoSlash (splitSlash s) := splitSlash_go_noSlash [] s (by simp)
+
+/-! ### inversion of the walk and of a positive lookup -/
+
+theorem walk_inv (tbl : Table) (w : Name) : ∀ (fuel : Nat) (cur : Option Nat) (k0 e k : Nat),
+    walk tbl w fuel cur k0 = some (e, k) →
+    k0 ≤ k ∧ (k = k0 → cur = some e) ∧ (k0 < k → tbl.get (w.take k) = some e ∧ k ≤ w.length) ∧
+    (k < w.length → k - k0 < fuel → tbl.get (w.take (k + 1)) = none) := by
+  intro fuel
+  induction fuel with
+  | zero =>
+    intro cur k0 e k h
+    cases cur with
+    | none => simp [walk] at h
+    | some c =>
+      simp only [walk, Option.map_some, Option.some.injEq, Prod.mk.injEq] at h
+      obtain ⟨rfl, rfl⟩ := h
+      exact ⟨Nat.le_refl _, fun _ => rfl, fun h => absurd h (Nat.lt_irrefl _), fun _ h => by omega⟩
+  | succ fuel ih =>
+    intro cur k0 e k h
+    simp only [walk] at h
+    split at h
+    · rename_i hge
+      cases cur with
+      | none => simp at h
+      | some c =>
+        simp only [Option.map_some, Option.some.injEq, Prod.mk.injEq] at h
+        obtain ⟨rfl, rfl⟩ := h
+        exact ⟨Nat.le_refl _, fun _ => rfl, fun h => absurd h (Nat.lt_irrefl _), fun h _ => by omega⟩
+    · rename_i hlt
+      split at h
+      · rename_i e' he'
+        obtain ⟨a, b, c, d⟩ := ih (some e') (k0 + 1) e k h
+        refine ⟨by omega, fun hk => by omega, ?_, fun h1 h2 => d h1 (by omega)⟩
+        intro _
+        by_cases hk : k = k0 + 1
+        · have := b hk
+          simp only [Option.some.injEq] at this
+          subst this; subst hk
+          exact ⟨he', by omega⟩
+        · exact c (by omega)
+      · rename_i hnone
+        cases cur with
+        | none => simp at h
+        | some c =>
+          simp only [Option.map_some, Option.some.injEq, Prod.mk.injEq] at h
+          obtain ⟨rfl, rfl⟩ := h
+          exact ⟨Nat.le_refl _, fun _ => rfl, fun h => absurd h (Nat.lt_irrefl _), fun _ _ => hnone⟩
+
+/-- What a positive answer looks like: the node comes out of the dictionary, and the remainder is empty,
+the literal `/#`, or the text from one of its slashes on. -/
+theorem found_inv (v : Vocab) (fold : Str → Str) (comps : Name) (i : Nat) (r : Str)
+    (h : findComps v fold comps = .found i r) :
+    (∃ key, v.table.get key = some i) ∧
+    (r = [] ∨ r = ['/', '#'] ∨ ∃ k, 0 < k ∧ k < comps.length ∧ r = '/' :: joinSlash (comps.drop k)) := by
+  unfold findComps at h
+  simp only at h
+  split at h
+  · rename_i e he
+    injection h with h1 h2
+    subst h1
+    refine ⟨⟨_, he⟩, ?_⟩
+    subst h2
+    split
+    · right; left; rfl
+    · left; rfl
+  · rename_i hnone
+    split at h
+    · cases h
+    · rename_i e k hw
+      obtain ⟨_, hk0, hk1, _⟩ := walk_inv _ _ _ _ _ _ _ hw
+      have hkpos : 0 < k := by
+        rcases Nat.eq_zero_or_pos k with h0 | h0
+        · have := hk0 h0; cases this
+        · exact h0
+      have hget := (hk1 hkpos).1
+      have hrem : ∀ r', r' = (if (comps.drop k).isEmpty then [] else '/' :: joinSlash (comps.drop k)) →
+          (r' = [] ∨ r' = ['/', '#'] ∨ ∃ k, 0 < k ∧ k < comps.length ∧ r' = '/' :: joinSlash (comps.drop k)) := by
+        intro r' hr'
+        by_cases hd : (comps.drop k).isEmpty = true
+        · left; simp [hr', hd]
+        · right; right
+          refine ⟨k, hkpos, ?_, by simp [hr', hd]⟩
+          have : comps.drop k ≠ [] := by simpa using hd
+          have := List.length_pos_iff.mpr this
+          simp at this; omega
+      split at h
+      · rename_i ch hch
+        split at h
+        · injection h with h1 h2
+          subst h1; subst h2
+          exact ⟨⟨_, hget⟩, Or.inl rfl⟩
+        · rename_i hne
+          injection h with h1 h2
+          subst h1
+          exact ⟨⟨_, hch⟩, hrem _ (by simp [← h2, hne])⟩
+      · split at h
+        · cases h
+        · injection h with h1 h2
+          subst h1
+          exact ⟨⟨_, hget⟩, hrem _ h2.symm⟩
+
+end HedVerif.Schema
+
+namespace HedVerif.C03
+open HedVerif.Schema
+
+/-! ### vocabulary hypotheses of the bulk theorems -/
+
+/-- The well-formedness conditions under which bulk conversion is proved: `TreeClosed`, `ShortDistinct`
+(hence `WF` and no duplicates), printable names (`cleanNamesB`, evaluated by the driver), and a `fold`
+for which only `#` folds to `#`. -/
+structure BulkOK (fold : Str → Str) (tags : List Name) : Prop where
+  tc : TreeClosed tags
+  sd : ShortDistinct fold tags
+  clean : cleanNamesB tags = true
+  sharp : ∀ x, fold x = fold ['#'] → x = ['#']
+  foldSharp : fold ['#'] = ['#']
+
+theorem cleanComp_spec {c : Str} (h : cleanComp c = true) :
+    c ≠ [] ∧ (∀ ch ∈ c, Tok.isDelim ch = false ∧ ch ≠ '/' ∧ ch ≠ ':') ∧
+    c.head? ≠ some ' ' ∧ c.getLast? ≠ some ' ' := by
+  simp only [cleanComp, Bool.and_eq_true, Bool.not_eq_true', List.all_eq_true, bne_iff_ne, ne_eq,
+    List.isEmpty_eq_false_iff] at h
+  obtain ⟨⟨⟨h1, h2⟩, h3⟩, h4⟩ := h
+  exact ⟨h1, fun ch hch => by have := h2 ch hch; simp_all, h3, h4⟩
+
+theorem clean_of {tags : List Name} (h : cleanNamesB tags = true) {n : Name} (hn : n ∈ tags) :
+    n ≠ [] ∧ ['#'] ∉ n.dropLast ∧ ∀ c ∈ n, cleanComp c = true := by
+  simp only [cleanNamesB, List.all_eq_true, Bool.and_eq_true, Bool.not_eq_true',
+    List.isEmpty_eq_false_iff] at h
+  obtain ⟨⟨h1, h2⟩, h3⟩ := h n hn
+  refine ⟨h1, ?_, h3⟩
+  intro hm
+  have : n.dropLast.contains ['#'] = true := by simpa using hm
+  rw [this] at h2; cases h2
+
+theorem noSlash_of_clean {n : Name} (h : ∀ c ∈ n, cleanComp c = true) : NoSlash n := by
+  intro c hc hm
+  exact ((cleanComp_spec (h c hc)).2.1 '/' hm).2.1 rfl
+
+theorem mem_of_dropLast_or_last {α} {n : List α} {x : α} (hx : x ∈ n) :
+    x ∈ n.dropLast ∨ n.getLast? = some x := by
+  induction n with
+  | nil => cases hx
+  | cons a l ih =>
+    cases l with
+    | nil => simp at hx; subst hx; right; simp
+    | cons b bs =>
+      simp only [List.mem_cons] at hx
+      rcases hx with rfl | hx
+      · left; simp
+      · rcases ih (by simpa using hx) with h | h
+        · left; simp only [List.dropLast_cons₂]; exact List.mem_cons_of_mem _ h
+        · right; simpa [List.getLast?_cons_cons] using h
+
+/-- a form of a `#` node has at least two components -/
+theorem form_sharp_len {f n : Name} (hf : f ∈ forms n) (hl : n.getLast? = some ['#']) : 2 ≤ f.length := by
+  obtain ⟨hne, hs, hv⟩ := mem_forms.mp hf
+  have hfl := (getLast?_suffix hne hs).symm.trans hl
+  match f, hne, hv, hfl with
+  | [x], _, hv, hfl => simp at hfl; subst hfl; exact absurd rfl hv
+  | _ :: _ :: _, _, _, _ => simp
+
+/-- **Fixpoint of a tag, every text.** Whatever text resolved to `(node, remainder)`, the short and the
+long text built from that answer resolve to the same `(node, remainder)`.  Side condition: the text has
+no placeholder `#` as a component other than its last one (`tag_fix_counterexample` shows it is needed). -/
+theorem tag_fix (fold : Str → Str) (tags : List Name) (H : BulkOK fold tags) (clean : Str)
+    (hsh : ['#'] ∉ (splitSlash clean).dropLast) (i : Nat) (r : Str)
+    (h : find (Vocab.build fold tags) fold clean = .found i r) :
+    find (Vocab.build fold tags) fold ((Vocab.build fold tags).shortName i ++ r) = .found i r ∧
+    find (Vocab.build fold tags) fold ((Vocab.build fold tags).longName i ++ r) = .found i r := by
+  have hwf := wf_of_shortDistinct fold tags H.sd
+  have hd := dups_nil_of_shortDistinct fold tags H.sd
+  have hnd : ∀ a, a ∉ (Vocab.build fold tags).dups := by simp [hd]
+  unfold find at h
+  generalize hcomps : splitSlash clean = comps at h hsh
+  have hcns : NoSlash comps := hcomps ▸ splitSlash_noSlash clean
+  have h0 := h
+  unfold findComps at h
+  simp only at h
+  split at h
+  · -- direct hit
+    rename_i e hget
+    injection h with h1 h2
+    subst h1
+    obtain ⟨_, n, hn, f, hf, hkf⟩ := register_sound fold tags _ e (get_some_mem _ _ _ hget)
+    obtain ⟨hfne, hfs, hfv⟩ := mem_forms.mp hf
+    have hnm := List.mem_of_getElem? hn
+    obtain ⟨hnne, hsl, hcl⟩ := clean_of H.clean hnm
+    have hns := noSlash_of_clean hcl
+    have hname : (Vocab.build fold tags).name e = n := by rw [build_name, hn]; rfl
+    by_cases hl : n.getLast? = some ['#']
+    · -- a `#` node: remainder "/#"
+      have hf2 := form_sharp_len hf hl
+      have hn2 : 2 ≤ n.length := Nat.le_trans hf2 hfs.length_le
+      have hr : r = ['/', '#'] := by
+        rw [← h2, hkf]
+        have : (foldName fold f).getLast? = some ['#'] := by
+          simp only [foldName, List.getLast?_map, ← getLast?_suffix hfne hfs, hl, Option.map_some,
+            H.foldSharp]
+        simp [this, foldName_length, hf2]
+      subst hr
+      obtain ⟨m, rfl⟩ : ∃ m, n = m ++ [['#']] := by
+        obtain ⟨m, hm⟩ := List.getLast?_eq_some_iff.mp hl
+        exact ⟨m, hm⟩
+      have hmne : m ≠ [] := by intro e; subst e; simp at hn2
+      obtain ⟨m0, lm, rfl⟩ : ∃ m0 lm, m = m0 ++ [lm] :=
+        ⟨m.dropLast, m.getLast hmne, (List.dropLast_concat_getLast hmne).symm⟩
+      have hshort : (Vocab.build fold tags).shortName e = lm := by
+        unfold Vocab.shortName; rw [hname]; simp
+      have hlong : (Vocab.build fold tags).longName e = joinSlash (m0 ++ [lm]) := by
+        unfold Vocab.longName; rw [hname]; simp
+      have hlm : '/' ∉ lm := hns lm (by simp)
+      constructor
+      · rw [hshort]
+        have e1 : lm ++ ['/', '#'] = joinSlash [lm, ['#']] := by simp [joinSlash]
+        rw [e1, find_text _ _ _ (by simp) (by
+          intro c hc; simp only [List.mem_cons, List.not_mem_nil, or_false] at hc
+          rcases hc with rfl | rfl
+          · exact hlm
+          · simp)]
+        have hform : [lm, ['#']] ∈ forms (m0 ++ [lm] ++ [['#']]) := by
+          refine mem_forms.mpr ⟨by simp, ⟨m0, by simp⟩, by simp⟩
+        have := direct_hit fold tags e _ hn (hnd e) hwf _ hform
+        unfold findComps
+        simp only [this]
+        simp [foldName, H.foldSharp]
+      · rw [hlong]
+        have e1 : joinSlash (m0 ++ [lm]) ++ ['/', '#'] = joinSlash (m0 ++ [lm] ++ [['#']]) := by
+          rw [joinSlash_append (m0 ++ [lm]) [['#']] (by simp) (by simp)]; simp [joinSlash]
+        rw [e1, find_text _ _ _ hnne hns]
+        have hform : (m0 ++ [lm] ++ [['#']]) ∈ forms (m0 ++ [lm] ++ [['#']]) := by
+          refine mem_forms.mpr ⟨hnne, List.suffix_refl _, ?_⟩
+          intro e; have := congrArg List.length e; simp at this
+        have := direct_hit fold tags e _ hn (hnd e) hwf _ hform
+        unfold findComps
+        simp only [this]
+        simp [foldName, H.foldSharp]
+    · -- a plain node: empty remainder
+      obtain ⟨last, hlast⟩ : ∃ last, n.getLast? = some last := by
+        cases hh : n.getLast? with
+        | none => exact absurd (List.getLast?_eq_none_iff.mp hh) hnne
+        | some x => exact ⟨x, rfl⟩
+      have hlv : last ≠ ['#'] := by intro e; apply hl; rw [hlast, e]
+      have hnv : fold last ≠ ['#'] := by
+        intro e; apply hlv; apply H.sharp; rw [e, H.foldSharp]
+      have hr : r = [] := by
+        rw [← h2, hkf]
+        have : (foldName fold f).getLast? = some (fold last) := by
+          simp only [foldName, List.getLast?_map, ← getLast?_suffix hfne hfs, hlast, Option.map_some]
+        simp [this, hnv]
+      subst hr
+      obtain ⟨hS, hL⟩ := forms_roundtrip fold tags e n last hn (hnd e) hwf hlast hnv hlv [last] n rfl rfl
+      have hshort : (Vocab.build fold tags).shortName e = last := by
+        unfold Vocab.shortName; rw [hname]; simp [hlast, hlv]
+      have hlong : (Vocab.build fold tags).longName e = joinSlash n := by
+        unfold Vocab.longName; rw [hname]; simp [hlast, hlv]
+      have hlm : '/' ∉ last := hns last (List.mem_of_getLast? hlast)
+      constructor
+      · rw [hshort, List.append_nil]
+        have e1 : last = joinSlash [last] := by simp [joinSlash]
+        rw [e1, find_text _ _ _ (by simp) (by intro c hc; simp at hc; subst hc; exact hlm)]
+        exact hS
+      · rw [hlong, List.append_nil, find_text _ _ _ hnne hns]
+        exact hL
+  · -- the walk
+    rename_i hnone
+    split at h
+    · cases h
+    · rename_i e k hw
+      clear h
+      obtain ⟨_, hk0, hk1, hk2⟩ := walk_inv _ _ _ _ _ _ _ hw
+      have hkpos : 0 < k := by
+        rcases Nat.eq_zero_or_pos k with hz | hz
+        · have := hk0 hz; cases this
+        · exact hz
+      obtain ⟨hget, hkle⟩ := hk1 hkpos
+      rw [foldName_length] at hkle
+      have hklt : k < comps.length := by
+        rcases Nat.lt_or_ge k comps.length with hlt | hge
+        · exact hlt
+        · exfalso
+          have : (foldName fold comps).take k = foldName fold comps := by
+            apply List.take_of_length_le; rw [foldName_length]; exact hge
+          rw [this, hnone] at hget; cases hget
+      have hstop0 := hk2 (by rw [foldName_length]; exact hklt) (by rw [foldName_length]; omega)
+      obtain ⟨_, n, hn, f, hf, hkf⟩ := register_sound fold tags _ e (get_some_mem _ _ _ hget)
+      obtain ⟨hfne, hfs, hfv⟩ := mem_forms.mp hf
+      have hnm := List.mem_of_getElem? hn
+      obtain ⟨hnne, hsl, hcl⟩ := clean_of H.clean hnm
+      have hns := noSlash_of_clean hcl
+      have htake : (foldName fold comps).take k = foldName fold (comps.take k) := by
+        simp [foldName, List.map_take]
+      have hflen : f.length = k := by
+        have := congrArg List.length hkf
+        rw [foldName_length, htake, foldName_length, List.length_take] at this
+        omega
+      have hfd : f = n.drop (n.length - k) := by
+        rw [← hflen]; exact List.suffix_iff_eq_drop.mp hfs
+      have hnk : k ≤ n.length := by rw [← hflen]; exact hfs.length_le
+      -- `#` is not a component of `n`
+      have hv : ['#'] ∉ n := by
+        intro hm
+        rcases mem_of_dropLast_or_last hm with hm' | hm'
+        · exact hsl hm'
+        · have h1 : (foldName fold (comps.take k)).getLast? = some (fold ['#']) := by
+            rw [← htake, hkf]
+            simp only [foldName, List.getLast?_map, ← getLast?_suffix hfne hfs, hm', Option.map_some]
+          simp only [foldName, List.getLast?_map, Option.map_eq_some_iff] at h1
+          obtain ⟨x, hx, hfx⟩ := h1
+          have hxs := H.sharp x hfx
+          subst hxs
+          apply hsh
+          rw [List.dropLast_eq_take]
+          have hmem := List.mem_of_getLast? hx
+          have : comps.take k = (comps.take (comps.length - 1)).take k := by
+            rw [List.take_take]; congr 1; omega
+          rw [this] at hmem
+          exact List.mem_of_mem_take hmem
+      cases hdrop : comps.drop k with
+      | nil =>
+        have := congrArg List.length hdrop
+        simp at this; omega
+      | cons e0 es =>
+        have hsplit : comps.take k ++ e0 :: es = comps := by rw [← hdrop]; exact List.take_append_drop k comps
+        have hes : NoSlash (e0 :: es) := by
+          intro c hc; apply hcns c; rw [← hsplit]; exact List.mem_append_right _ hc
+        have hcase : foldName fold (comps.take k) = foldName fold (n.drop (n.length - k)) := by
+          rw [← htake, hkf, hfd]
+        have hstop : (Vocab.build fold tags).table.get (foldName fold (n.drop (n.length - k) ++ [e0])) = none := by
+          have : foldName fold (n.drop (n.length - k) ++ [e0]) = (foldName fold comps).take (k + 1) := by
+            have e2 : (foldName fold comps).take (k + 1) = foldName fold (comps.take (k + 1)) := by
+              simp [foldName, List.map_take]
+            rw [e2, List.take_add, hdrop]
+            simp only [foldName, List.map_append] at hcase ⊢
+            rw [hcase]; simp
+          rw [this]; exact hstop0
+        rw [← hsplit] at h0
+        exact short_long_fixpoint fold tags H.tc hd hwf H.sharp e n hn hv hns (n.length - k) (by omega)
+          (comps.take k) hcase e0 es hes hstop i r h0
+
+end HedVerif.C03
+
+namespace HedVerif.Schema
+/-! ### namespaces -/
+
+theorem namespaceOf_prefix (t : Str) : namespaceOf t <+: t := by
+  unfold namespaceOf
+  split
+  · exact List.nil_prefix
+  · split
+    · split
+      · exact List.nil_prefix
+      · exact List.take_prefix _ _
+    · exact List.take_prefix _ _
+
+theorem prefix_append_drop {p t : Str} (h : p <+: t) : p ++ t.drop p.length = t := by
+  obtain ⟨s, rfl⟩ := h; simp
+
+theorem namespaceOf_append_drop (t : Str) : namespaceOf t ++ t.drop (namespaceOf t).length = t :=
+  prefix_append_drop (namespaceOf_prefix t)
+
+theorem findIdx?_none_of_not_mem (a : Str) (x : Char) (h : x ∉ a) : a.findIdx? (fun y => y == x) = none := by
+  rw [List.findIdx?_eq_none_iff]
+  intro y hy
+  simp only [beq_eq_false_iff_ne, ne_eq]
+  intro e; exact h (e ▸ hy)
+
+/-- a text that starts with a `:`-free run ending at a slash (or at the end) has no namespace -/
+theorem namespaceOf_nil_of (a rest : Str) (h1 : ':' ∉ a) (h2 : rest = [] ∨ rest.head? = some '/') :
+    namespaceOf (a ++ rest) = [] := by
+  have ha := findIdx?_none_of_not_mem a ':' h1
+  unfold namespaceOf
+  rcases h2 with rfl | h2
+  · simp [List.idxOf?, ha]
+  · cases rest with
+    | nil => simp at h2
+    | cons c rest' =>
+      simp only [List.head?_cons, Option.some.injEq] at h2
+      subst h2
+      simp only [List.idxOf?, List.findIdx?_append, ha, Option.none_or, List.findIdx?_cons]
+      cases hr : List.findIdx? (fun x => x == ':') rest' with
+      | none => simp
+      | some ic' =>
+        cases hs : List.findIdx? (fun x => x == '/') a with
+        | none => simp <;> omega
+        | some is =>
+          have := (List.findIdx?_eq_some_iff_getElem.mp hs).1
+          simp <;> omega
+
+/-- a non-empty namespace is a `:`-free, `/`-free run followed by the colon -/
+theorem namespaceOf_shape (t : Str) (h : namespaceOf t ≠ []) :
+    ∃ p, namespaceOf t = p ++ [':'] ∧ ':' ∉ p ∧ '/' ∉ p := by
+  unfold namespaceOf at h ⊢
+  cases hc : t.idxOf? ':' with
+  | none => simp [hc] at h
+  | some ic =>
+    simp only [hc] at h ⊢
+    simp only [List.idxOf?] at hc
+    obtain ⟨hlt, hget, hmin⟩ := List.findIdx?_eq_some_iff_getElem.mp hc
+    have hget' : t[ic] = ':' := by simpa using hget
+    have htake : t.take (ic + 1) = t.take ic ++ [':'] := by
+      rw [List.take_add_one]; simp [hlt, hget']
+    have hp : ':' ∉ t.take ic := by
+      intro hm
+      obtain ⟨j, hj, hjx⟩ := List.getElem_of_mem hm
+      have hj' : j < ic := by simp at hj; omega
+      have : t[j]'(by omega) = ':' := by rw [List.getElem_take] at hjx; exact hjx
+      exact hmin j hj' (by simp [this])
+    cases hs : t.idxOf? '/' with
+    | none =>
+      refine ⟨t.take ic, by simp [htake], hp, ?_⟩
+      simp only [List.idxOf?, List.findIdx?_eq_none_iff] at hs
+      intro hm
+      have := hs '/' (List.mem_of_mem_take hm)
+      simp at this
+    | some is =>
+      simp only [hs] at h ⊢
+      by_cases hgt : ic > is
+      · simp [hgt] at h
+      · simp only [hgt, ↓reduceIte]
+        refine ⟨t.take ic, htake, hp, ?_⟩
+        simp only [List.idxOf?] at hs
+        obtain ⟨_, _, hmin2⟩ := List.findIdx?_eq_some_iff_getElem.mp hs
+        intro hm
+        obtain ⟨j, hj, hjx⟩ := List.getElem_of_mem hm
+        have hj' : j < ic := by simp at hj; omega
+        have : t[j]'(by omega) = '/' := by rw [List.getElem_take] at hjx; exact hjx
+        exact hmin2 j (by omega) (by simp [this])
+
+end HedVerif.Schema
+
+namespace HedVerif.C03
+open HedVerif.Schema HedVerif.Tok
+
+/-- the name of node `i` in a form, without namespace and remainder -/
+def baseForm (v : Vocab) (f : Form) (i : Nat) : Str :=
+  match f with
+  | .short => v.shortName i
+  | .long => v.longName i
+
+theorem tagForm_found (v : Vocab) (fold : Str → Str) (sns : Str) (f : Form) (t : Str) (i : Nat) (r : Str)
+    (hns : namespaceOf t = sns) (hf : find v fold (t.drop (namespaceOf t).length) = .found i r) :
+    tagForm v fold sns f t = namespaceOf t ++ baseForm v f i ++ r := by
+  unfold tagForm
+  simp only [hns, bne_self_eq_false, Bool.false_eq_true, ↓reduceIte]
+  rw [hns] at hf
+  rw [hf]
+  cases f <;> simp [baseForm, shortTag, longTag]
+
+theorem tagForm_other (v : Vocab) (fold : Str → Str) (sns : Str) (f : Form) (t : Str)
+    (h : namespaceOf t ≠ sns ∨ ∀ i r, find v fold (t.drop (namespaceOf t).length) ≠ .found i r) :
+    tagForm v fold sns f t = t := by
+  unfold tagForm
+  rcases h with h | h
+  · simp [h]
+  · simp only
+    cases hf : find v fold (t.drop (namespaceOf t).length) with
+    | found i r => exact absurd hf (h i r)
+    | noValidTag s => simp
+    | invalidParent a b x => simp
+
+/-- the components that make up the names of node `n`: the `#` is not part of them -/
+theorem names_of_index (fold : Str → Str) (tags : List Name) (hcn : cleanNamesB tags = true) (i : Nat)
+    (hk : ∃ key, (Vocab.build fold tags).table.get key = some i) :
+    ∃ n' : Name, n' ≠ [] ∧ (∀ c ∈ n', cleanComp c = true) ∧
+      (Vocab.build fold tags).longName i = joinSlash n' ∧
+      (Vocab.build fold tags).shortName i = n'.getLast?.getD [] := by
+  obtain ⟨key, hkey⟩ := hk
+  obtain ⟨_, n, hn, f, hf, _⟩ := register_sound fold tags _ i (get_some_mem _ _ _ hkey)
+  obtain ⟨hnne, _, hcl⟩ := clean_of hcn (List.mem_of_getElem? hn)
+  have hname : (Vocab.build fold tags).name i = n := by rw [build_name, hn]; rfl
+  by_cases hl : n.getLast? = some ['#']
+  · have hf2 := form_sharp_len hf hl
+    have hn2 : 2 ≤ n.length := Nat.le_trans hf2 (mem_forms.mp hf).2.1.length_le
+    refine ⟨n.dropLast, ?_, fun c hc => hcl c (List.dropLast_subset _ hc), ?_, ?_⟩
+    · intro e; have := congrArg List.length e; simp at this; omega
+    · unfold Vocab.longName; rw [hname]; simp [hl]
+    · unfold Vocab.shortName; rw [hname]; simp [hl]
+  · refine ⟨n, hnne, hcl, ?_, ?_⟩
+    · unfold Vocab.longName; rw [hname]; simp [hl]
+    · unfold Vocab.shortName; rw [hname]; simp [hl]
+
+theorem validText_of_clean {c : Str} (h : cleanComp c = true) : ValidText c := by
+  obtain ⟨h1, h2, h3, h4⟩ := cleanComp_spec h
+  exact ⟨h1, fun ch hch => (h2 ch hch).1, h3, h4⟩
+
+theorem validText_joinSlash (n : Name) (hne : n ≠ []) (hc : ∀ c ∈ n, cleanComp c = true) :
+    ValidText (joinSlash n) := by
+  induction n with
+  | nil => exact absurd rfl hne
+  | cons c l ih =>
+    have hcv := validText_of_clean (hc c (by simp))
+    cases l with
+    | nil => simpa [joinSlash] using hcv
+    | cons d ds =>
+      have ihv := ih (by simp) (fun x hx => hc x (List.mem_cons_of_mem _ hx))
+      obtain ⟨a1, a2, a3, a4⟩ := hcv
+      obtain ⟨b1, b2, b3, b4⟩ := ihv
+      rw [joinSlash_cons _ _ (by simp)]
+      refine ⟨by simp [a1], ?_, ?_, ?_⟩
+      · intro ch hch
+        simp only [List.mem_append, List.mem_cons] at hch
+        rcases hch with h | rfl | h
+        · exact a2 ch h
+        · rfl
+        · exact b2 ch h
+      · rw [List.head?_append]
+        cases c with
+        | nil => exact absurd rfl a1
+        | cons x xs => simpa using a3
+      · rw [List.getLast?_append]
+        cases hj : joinSlash (d :: ds) with
+        | nil => exact absurd hj b1
+        | cons x xs =>
+          rw [hj] at b4
+          simpa [List.getLast?_cons_cons] using b4
+
+/-- glue a printable core between a harmless prefix and a harmless suffix -/
+theorem validText_assemble (p b r : Str) (hb : ValidText b)
+    (hp : (∀ ch ∈ p, isDelim ch = false) ∧ p.head? ≠ some ' ')
+    (hr : (∀ ch ∈ r, isDelim ch = false) ∧ r.getLast? ≠ some ' ') : ValidText (p ++ b ++ r) := by
+  obtain ⟨b1, b2, b3, b4⟩ := hb
+  refine ⟨by simp [b1], ?_, ?_, ?_⟩
+  · intro ch hch
+    simp only [List.mem_append] at hch
+    rcases hch with (h | h) | h
+    · exact hp.1 ch h
+    · exact b2 ch h
+    · exact hr.1 ch h
+  · cases p with
+    | nil =>
+      cases b with
+      | nil => exact absurd rfl b1
+      | cons x xs => simpa using b3
+    | cons x xs => simpa using hp.2
+  · cases hrr : r with
+    | nil =>
+      rw [List.append_nil, List.getLast?_append]
+      cases hbb : b.getLast? with
+      | none => exact absurd (List.getLast?_eq_none_iff.mp hbb) b1
+      | some y => rw [hbb] at b4; simpa using b4
+    | cons x xs =>
+      rw [List.getLast?_append]
+      have := hr.2
+      rw [hrr] at this
+      cases hx : (x :: xs).getLast? with
+      | none => simp at hx
+      | some y => rw [hx] at this; simpa using this
+
+
+theorem validText_baseForm (fold : Str → Str) (tags : List Name) (hcn : cleanNamesB tags = true) (f : Form) (i : Nat)
+    (hk : ∃ key, (Vocab.build fold tags).table.get key = some i) :
+    ValidText (baseForm (Vocab.build fold tags) f i) ∧
+    ∃ a rest, baseForm (Vocab.build fold tags) f i = a ++ rest ∧ ':' ∉ a ∧
+      (rest = [] ∨ rest.head? = some '/') := by
+  obtain ⟨n', hne, hcl, hlong, hshort⟩ := names_of_index fold tags hcn i hk
+  cases f with
+  | short =>
+    simp only [baseForm, hshort]
+    obtain ⟨last, hlast⟩ : ∃ last, n'.getLast? = some last := by
+      cases hh : n'.getLast? with
+      | none => exact absurd (List.getLast?_eq_none_iff.mp hh) hne
+      | some x => exact ⟨x, rfl⟩
+    have hc := hcl last (List.mem_of_getLast? hlast)
+    simp only [hlast, Option.getD_some]
+    refine ⟨validText_of_clean hc, last, [], by simp, ?_, Or.inl rfl⟩
+    intro hm; exact ((cleanComp_spec hc).2.1 ':' hm).2.2 rfl
+  | long =>
+    simp only [baseForm, hlong]
+    refine ⟨validText_joinSlash n' hne hcl, ?_⟩
+    cases n' with
+    | nil => exact absurd rfl hne
+    | cons a l =>
+      have hc := hcl a (by simp)
+      have ha : ':' ∉ a := fun hm => ((cleanComp_spec hc).2.1 ':' hm).2.2 rfl
+      cases l with
+      | nil => exact ⟨a, [], by simp [joinSlash], ha, Or.inl rfl⟩
+      | cons d ds => exact ⟨a, '/' :: joinSlash (d :: ds), by rw [joinSlash_cons _ _ (by simp)], ha, Or.inr rfl⟩
+
+/-- the remainder of a resolved printable tag text is harmless -/
+theorem rem_ok (v : Vocab) (fold : Str → Str) (t : Str) (hv : ValidText t) (i : Nat) (r : Str)
+    (hf : find v fold (t.drop (namespaceOf t).length) = .found i r) :
+    (∀ ch ∈ r, isDelim ch = false) ∧ r.getLast? ≠ some ' ' ∧ (r = [] ∨ r.head? = some '/') := by
+  unfold find at hf
+  obtain ⟨_, hr⟩ := found_inv v fold _ i r hf
+  rcases hr with rfl | rfl | ⟨k, hk0, hk1, rfl⟩
+  · simp
+  · refine ⟨?_, by simp, Or.inr rfl⟩
+    intro ch hch
+    simp only [List.mem_cons, List.not_mem_nil, or_false] at hch
+    rcases hch with rfl | rfl <;> rfl
+  · generalize hcomps : splitSlash (t.drop (namespaceOf t).length) = comps at hk1
+    have hc : t.drop (namespaceOf t).length = joinSlash (comps.take k) ++ '/' :: joinSlash (comps.drop k) := by
+      rw [← joinSlash_append _ _ (by
+            intro e; have := congrArg List.length e
+            simp only [List.length_take, List.length_nil] at this; omega) (by
+            intro e; have := congrArg List.length e
+            simp only [List.length_drop, List.length_nil] at this; omega),
+        List.take_append_drop, ← hcomps, joinSlash_splitSlash]
+    have ht : t = namespaceOf t ++ joinSlash (comps.take k) ++ '/' :: joinSlash (comps.drop k) := by
+      rw [List.append_assoc, ← hc, namespaceOf_append_drop]
+    obtain ⟨_, h2, _, h4⟩ := hv
+    refine ⟨?_, ?_, Or.inr rfl⟩
+    · intro ch hch
+      apply h2
+      rw [ht]
+      exact List.mem_append_right _ hch
+    · rw [ht, List.getLast?_append] at h4
+      cases hx : ('/' :: joinSlash (comps.drop k)).getLast? with
+      | none => simp at hx
+      | some y => rw [hx] at h4; simpa using h4
+
+/-- **Forms are printable**: the short / long text of a printable tag text is printable (non-empty, no
+delimiter, no blank at either end) — so the converted string parses back tag by tag. -/
+theorem tagForm_valid (fold : Str → Str) (tags : List Name) (hcn : cleanNamesB tags = true) (sns : Str) (f : Form)
+    (t : Str) (hv : ValidText t) : ValidText (tagForm (Vocab.build fold tags) fold sns f t) := by
+  by_cases hns : namespaceOf t = sns
+  · cases hf : find (Vocab.build fold tags) fold (t.drop (namespaceOf t).length) with
+    | found i r =>
+      rw [tagForm_found _ _ _ _ _ i r hns hf]
+      unfold find at hf
+      obtain ⟨hk, _⟩ := found_inv _ _ _ _ _ hf
+      obtain ⟨hr1, hr2, _⟩ := rem_ok _ _ t hv i r hf
+      refine validText_assemble _ _ _ (validText_baseForm fold tags hcn f i hk).1 ⟨?_, ?_⟩ ⟨hr1, hr2⟩
+      · intro ch hch
+        exact hv.2.1 ch ((namespaceOf_prefix t).subset hch)
+      · obtain ⟨s, hs⟩ := namespaceOf_prefix t
+        cases hn : namespaceOf t with
+        | nil => simp
+        | cons x xs =>
+          have h3 := hv.2.2.1
+          rw [← hs, hn] at h3
+          simpa using h3
+    | noValidTag s => rw [tagForm_other _ _ _ _ _ (Or.inr (by simp [hf]))]; exact hv
+    | invalidParent a b x => rw [tagForm_other _ _ _ _ _ (Or.inr (by simp [hf]))]; exact hv
+  · rw [tagForm_other _ _ _ _ _ (Or.inl hns)]; exact hv
+
+/-- **Tag level: converting a converted tag.** `form'(form(t)) = form'(t)` for the four combinations of
+short and long — `long(short t) = long t`, `short(long t) = short t`, and both idempotent — for every
+text `t` (resolved or not), under the placeholder side condition. -/
+theorem tagForm_tagForm (fold : Str → Str) (tags : List Name) (H : BulkOK fold tags) (sns : Str)
+    (f f' : Form) (t : Str) (hv : ValidText t) (hsh : noInteriorSharp t = true) :
+    tagForm (Vocab.build fold tags) fold sns f' (tagForm (Vocab.build fold tags) fold sns f t) =
+      tagForm (Vocab.build fold tags) fold sns f' t := by
+  by_cases hns : namespaceOf t = sns
+  · cases hf : find (Vocab.build fold tags) fold (t.drop (namespaceOf t).length) with
+    | found i r =>
+      have hsh' : ['#'] ∉ (splitSlash (t.drop (namespaceOf t).length)).dropLast := by
+        simpa [noInteriorSharp] using hsh
+      obtain ⟨hfix1, hfix2⟩ := tag_fix fold tags H _ hsh' i r hf
+      have hfix : find (Vocab.build fold tags) fold (baseForm (Vocab.build fold tags) f i ++ r) = .found i r := by
+        cases f
+        · exact hfix1
+        · exact hfix2
+      rw [tagForm_found _ _ _ f _ i r hns hf, tagForm_found _ _ _ f' _ i r hns hf]
+      have hk : ∃ key, (Vocab.build fold tags).table.get key = some i := by
+        unfold find at hf; exact (found_inv _ _ _ _ _ hf).1
+      obtain ⟨_, a, rest, hab, ha, hrest⟩ := validText_baseForm fold tags H.clean f i hk
+      obtain ⟨_, _, hr3⟩ := rem_ok _ _ t hv i r hf
+      -- the namespace of the converted text is the namespace of `t`
+      have hnsu : namespaceOf (namespaceOf t ++ baseForm (Vocab.build fold tags) f i ++ r) = namespaceOf t := by
+        by_cases hnil : namespaceOf t = []
+        · rw [hnil, List.nil_append, hab, List.append_assoc]
+          apply namespaceOf_nil_of a (rest ++ r) ha
+          rcases hrest with rfl | h
+          · simpa using hr3
+          · right
+            cases rest with
+            | nil => simp at h
+            | cons x xs => simpa using h
+        · obtain ⟨p, hp, hp1, hp2⟩ := namespaceOf_shape t hnil
+          rw [hp]
+          have := namespace_ascii p (baseForm (Vocab.build fold tags) f i ++ r) hp1 hp2
+          simpa [List.append_assoc] using this
+      have hdrop : (namespaceOf t ++ baseForm (Vocab.build fold tags) f i ++ r).drop (namespaceOf t).length =
+          baseForm (Vocab.build fold tags) f i ++ r := by
+        rw [List.append_assoc, List.drop_left]
+      have := tagForm_found (Vocab.build fold tags) fold sns f'
+        (namespaceOf t ++ baseForm (Vocab.build fold tags) f i ++ r) i r (by rw [hnsu, hns])
+        (by rw [hnsu, hdrop]; exact hfix)
+      rw [this, hnsu]
+    | noValidTag s => rw [tagForm_other _ _ _ f _ (Or.inr (by simp [hf]))]
+    | invalidParent a b x => rw [tagForm_other _ _ _ f _ (Or.inr (by simp [hf]))]
+  · rw [tagForm_other _ _ _ f _ (Or.inl hns)]
+
+
+end HedVerif.C03
+
+namespace HedVerif
+open Tok Tree
+
+/-! ### mapping a function over the tag texts of an abstract forest -/
+
+mutual
+def mapNode (g : Str → Str) : ATree → ATree
+  | .tag w => .tag (g w)
+  | .group kids => .group (mapList g kids)
+def mapList (g : Str → Str) : List ATree → List ATree
+  | [] => []
+  | n :: ns => mapNode g n :: mapList g ns
+end
+
+mutual
+/-- the tag texts of a forest, left to right -/
+def leavesNode : ATree → List Str
+  | .tag w => [w]
+  | .group kids => leavesList kids
+def leavesList : List ATree → List Str
+  | [] => []
+  | n :: ns => leavesNode n ++ leavesList ns
+end
+
+mutual
+theorem formNode_comp (g : Str → Str) (form : Nat → Nat → Str) :
+    ∀ n : Node, formNode (fun a b => g (form a b)) n = mapNode g (formNode form n)
+  | .tag a b => by simp [formNode, mapNode]
+  | .group _ _ kids => by simp [formNode, mapNode, formList_comp g form kids]
+theorem formList_comp (g : Str → Str) (form : Nat → Nat → Str) :
+    ∀ l : List Node, formList (fun a b => g (form a b)) l = mapList g (formList form l)
+  | [] => by simp [formList, mapList]
+  | n :: ns => by simp [formList, mapList, formNode_comp g form n, formList_comp g form ns]
+end
+
+mutual
+theorem mapNode_mapNode (g h : Str → Str) : ∀ n : ATree, mapNode g (mapNode h n) = mapNode (fun w => g (h w)) n
+  | .tag w => by simp [mapNode]
+  | .group kids => by simp [mapNode, mapList_mapList g h kids]
+theorem mapList_mapList (g h : Str → Str) : ∀ l : List ATree, mapList g (mapList h l) = mapList (fun w => g (h w)) l
+  | [] => by simp [mapList]
+  | n :: ns => by simp [mapList, mapNode_mapNode g h n, mapList_mapList g h ns]
+end
+
+mutual
+theorem mapNode_congr (g h : Str → Str) : ∀ n : ATree, (∀ w ∈ leavesNode n, g w = h w) → mapNode g n = mapNode h n
+  | .tag w, hw => by simp [mapNode, hw w (by simp [leavesNode])]
+  | .group kids, hw => by
+    simp only [mapNode]
+    rw [mapList_congr g h kids (fun w hm => hw w (by simpa [leavesNode] using hm))]
+theorem mapList_congr (g h : Str → Str) : ∀ l : List ATree, (∀ w ∈ leavesList l, g w = h w) → mapList g l = mapList h l
+  | [], _ => by simp [mapList]
+  | n :: ns, hw => by
+    simp only [mapList]
+    rw [mapNode_congr g h n (fun w hm => hw w (by simp [leavesList, hm])),
+      mapList_congr g h ns (fun w hm => hw w (by simp [leavesList, hm]))]
+end
+
+mutual
+theorem leavesNode_map (g : Str → Str) : ∀ n : ATree, leavesNode (mapNode g n) = (leavesNode n).map g
+  | .tag w => by simp [mapNode, leavesNode]
+  | .group kids => by simp [mapNode, leavesNode, leavesList_map g kids]
+theorem leavesList_map (g : Str → Str) : ∀ l : List ATree, leavesList (mapList g l) = (leavesList l).map g
+  | [] => by simp [mapList, leavesList]
+  | n :: ns => by simp [mapList, leavesList, leavesNode_map g n, leavesList_map g ns]
+end
+
+mutual
+theorem validNode_leaves : ∀ n : ATree, ValidNode n → ∀ w ∈ leavesNode n, ValidText w
+  | .tag w, hv => by intro x hx; simp only [leavesNode, List.mem_singleton] at hx; subst hx; simpa [ValidNode] using hv
+  | .group kids, hv => by
+    intro x hx
+    exact validList_leaves kids (by simpa [ValidNode] using hv) x (by simpa [leavesNode] using hx)
+theorem validList_leaves : ∀ l : List ATree, ValidList l → ∀ w ∈ leavesList l, ValidText w
+  | [], _ => by intro x hx; simp [leavesList] at hx
+  | n :: ns, hv => by
+    intro x hx
+    simp only [ValidList] at hv
+    simp only [leavesList, List.mem_append] at hx
+    rcases hx with hx | hx
+    · exact validNode_leaves n hv.1 x hx
+    · exact validList_leaves ns hv.2 x hx
+end
+
+mutual
+theorem validNode_map (g : Str → Str) (hg : ∀ w, ValidText w → ValidText (g w)) :
+    ∀ n : ATree, ValidNode n → ValidNode (mapNode g n)
+  | .tag w, hv => by simp only [mapNode, ValidNode] at hv ⊢; exact hg w hv
+  | .group kids, hv => by simp only [mapNode, ValidNode] at hv ⊢; exact validList_map g hg kids hv
+theorem validList_map (g : Str → Str) (hg : ∀ w, ValidText w → ValidText (g w)) :
+    ∀ l : List ATree, ValidList l → ValidList (mapList g l)
+  | [], _ => by simp [mapList, ValidList]
+  | n :: ns, hv => by
+    simp only [ValidList, mapList] at hv ⊢
+    exact ⟨validNode_map g hg n hv.1, validList_map g hg ns hv.2⟩
+end
+
+end HedVerif
+
+namespace HedVerif.C03
+open HedVerif.Schema HedVerif.Tok HedVerif.Tree
+
+/-- the tag texts of a string (source slices of the tags of its parse tree), left to right -/
+def tagTexts (s : Str) : List Str := leavesList (absList s (construct s))
+
+/-- the shape of the parse tree of a string: group nesting with the tag texts erased -/
+def shape (s : Str) : List ATree := mapList (fun _ => []) (absList s (construct s))
+
+/-- `convertText` prints the parse tree with every tag text replaced by its form -/
+theorem convert_render (v : Vocab) (fold : Str → Str) (sns : Str) (f : Form) (s : Str) :
+    convertText v fold sns f s = renderList (mapList (tagForm v fold sns f) (absList s (construct s))) := by
+  unfold convertText
+  rw [print_form_list, formList_comp]
+
+/-- **The converted text parses to the converted tree.**  If the vocabulary's names are printable
+(`cleanNamesB`: non-empty components without `,` `(` `)` `/` `:` and without a blank at either end), the
+parse tree of `convertText s`, with spans forgotten, is the parse tree of `s` with every tag text replaced
+by its form: no tag is split, merged, lost or moved to another group. -/
+theorem convert_tree (fold : Str → Str) (tags : List Name) (hcn : cleanNamesB tags = true) (sns : Str)
+    (f : Form) (s : Str) :
+    absList (convertText (Vocab.build fold tags) fold sns f s)
+        (construct (convertText (Vocab.build fold tags) fold sns f s)) =
+      mapList (tagForm (Vocab.build fold tags) fold sns f) (absList s (construct s)) := by
+  have hv : ValidList (formList (fun a b => tagForm (Vocab.build fold tags) fold sns f (slice s a b)) (construct s)) := by
+    rw [formList_comp]
+    exact validList_map _ (fun w hw => tagForm_valid fold tags hcn sns f w hw) _ (construct_valid s)
+  have := (C02.roundtrip_form _ (construct s) hv).2.1
+  rw [formList_comp] at this
+  exact this
+
+/-- **(c) Shape preserved**: same group nesting, same number of tags. -/
+theorem convert_preserves_shape (fold : Str → Str) (tags : List Name) (hcn : cleanNamesB tags = true)
+    (sns : Str) (f : Form) (s : Str) :
+    shape (convertText (Vocab.build fold tags) fold sns f s) = shape s ∧
+    (tagTexts (convertText (Vocab.build fold tags) fold sns f s)).length = (tagTexts s).length := by
+  unfold shape tagTexts
+  rw [convert_tree fold tags hcn sns f s, mapList_mapList, leavesList_map]
+  simp
+
+/-- **(d) Bulk conversion is per-tag conversion**: the tag texts of the converted string are the forms
+of the tag texts of the input, in order (the i-th tag of the output is the form of the i-th tag of the
+input). -/
+theorem convert_tagwise (fold : Str → Str) (tags : List Name) (hcn : cleanNamesB tags = true)
+    (sns : Str) (f : Form) (s : Str) :
+    tagTexts (convertText (Vocab.build fold tags) fold sns f s) =
+      (tagTexts s).map (tagForm (Vocab.build fold tags) fold sns f) := by
+  unfold tagTexts
+  rw [convert_tree fold tags hcn sns f s, leavesList_map]
+
+/-- **Converting a converted string**, the four combinations at once. Side condition on the text: no tag
+has the placeholder `#` as a component other than its last one. -/
+theorem convert_convert (fold : Str → Str) (tags : List Name) (H : BulkOK fold tags) (sns : Str)
+    (f f' : Form) (s : Str) (hsh : ∀ w ∈ tagTexts s, noInteriorSharp w = true) :
+    convertText (Vocab.build fold tags) fold sns f' (convertText (Vocab.build fold tags) fold sns f s) =
+      convertText (Vocab.build fold tags) fold sns f' s := by
+  rw [convert_render _ _ _ f' (convertText _ _ _ f s), convert_tree fold tags H.clean sns f s,
+    mapList_mapList, convert_render _ _ _ f' s]
+  congr 1
+  apply mapList_congr
+  intro w hw
+  exact tagForm_tagForm fold tags H sns f f' w (validList_leaves _ (construct_valid s) w hw) (hsh w hw)
+
+/-- **(a) `long(short(s)) = long(s)` and `short(long(s)) = short(s)`** for whole strings. -/
+theorem convert_short_long (fold : Str → Str) (tags : List Name) (H : BulkOK fold tags) (sns : Str)
+    (s : Str) (hsh : ∀ w ∈ tagTexts s, noInteriorSharp w = true) :
+    convertText (Vocab.build fold tags) fold sns .long (convertText (Vocab.build fold tags) fold sns .short s) =
+      convertText (Vocab.build fold tags) fold sns .long s ∧
+    convertText (Vocab.build fold tags) fold sns .short (convertText (Vocab.build fold tags) fold sns .long s) =
+      convertText (Vocab.build fold tags) fold sns .short s :=
+  ⟨convert_convert fold tags H sns .short .long s hsh, convert_convert fold tags H sns .long .short s hsh⟩
+
+/-- **(b) Both conversions are idempotent** on whole strings. -/
+theorem convert_idempotent (fold : Str → Str) (tags : List Name) (H : BulkOK fold tags) (sns : Str)
+    (f : Form) (s : Str) (hsh : ∀ w ∈ tagTexts s, noInteriorSharp w = true) :
+    convertText (Vocab.build fold tags) fold sns f (convertText (Vocab.build fold tags) fold sns f s) =
+      convertText (Vocab.build fold tags) fold sns f s :=
+  convert_convert fold tags H sns f f s hsh
+
+/-- A text with unbalanced parentheses converts to the empty text (the tree of `HedString` is empty). -/
+theorem convert_unbalanced (v : Vocab) (fold : Str → Str) (sns : Str) (f : Form) (s : Str)
+    (h : ¬ balanced s) : convertText v fold sns f s = [] := by
+  unfold convertText
+  rw [C02.unbalanced_empty s h]
+  rfl
+
+/-! ### the Series / DataFrame wrapper -/
+
+theorem convertColumn_names (g : Str → Str) (df df' : DataFrame) (c : Str)
+    (h : convertColumn g df c = .ok df') : df'.map (·.1) = df.map (·.1) := by
+  unfold convertColumn at h
+  split at h
+  · injection h with h; subst h
+    rw [List.map_map]
+    apply List.map_congr_left
+    intro col _
+    simp only [Function.comp]
+    split <;> rfl
+  · cases h
+
+
+theorem count_eq_one_of_nodup {l : List Str} {a : Str} (h : l.Nodup) (hm : a ∈ l) : l.count a = 1 := by
+  induction l with
+  | nil => cases hm
+  | cons x xs ih =>
+    rw [List.nodup_cons] at h
+    rw [List.count_cons]
+    by_cases hx : x = a
+    · subst hx
+      have : xs.count x = 0 := List.count_eq_zero_of_not_mem h.1
+      simp [this]
+    · have : a ∈ xs := by
+        rcases List.mem_cons.mp hm with h1 | h1
+        · exact absurd h1.symm hx
+        · exact h1
+      simp [hx, ih h.2 this]
+
+theorem convertColumns_spec (g : Str → Str) : ∀ (cs : List Str) (df : DataFrame),
+    (∀ c ∈ cs, c ∈ df.map (·.1)) →
+    convertColumns g df cs = .ok (df.map fun col => (col.1, col.2.map (iter g (cs.count col.1))))
+  | [], df, _ => by
+    simp only [convertColumns, List.count_nil]
+    congr 1
+    symm
+    have : (fun col : Column => (col.1, col.2.map (iter g (0)))) = id := by
+      funext col; simp [iter]
+    rw [this, List.map_id]
+  | c :: cs, df, hcs => by
+    have hc : df.any (fun col => col.1 == c) = true := by
+      have := hcs c (by simp)
+      simp only [List.mem_map] at this
+      obtain ⟨col, hcol, rfl⟩ := this
+      exact List.any_eq_true.mpr ⟨col, hcol, by simp⟩
+    simp only [convertColumns, convertColumn, hc, ↓reduceIte]
+    have hnames : (df.map fun col => if col.1 == c then (col.1, col.2.map g) else col).map (·.1) = df.map (·.1) := by
+      rw [List.map_map]; apply List.map_congr_left; intro col _; simp only [Function.comp]; split <;> rfl
+    rw [convertColumns_spec g cs _ (by intro x hx; rw [hnames]; exact hcs x (by simp [hx])), List.map_map]
+    congr 1
+    apply List.map_congr_left
+    intro col _
+    simp only [Function.comp, List.count_cons]
+    by_cases h : (col.1 == c) = true
+    · have h' : (c == col.1) = true := by rw [beq_iff_eq] at h ⊢; exact h.symm
+      simp only [h, h', ↓reduceIte, List.map_map]
+      rfl
+    · have h' : (c == col.1) = false := by
+        cases hh : (c == col.1) with
+        | false => rfl
+        | true => rw [beq_iff_eq] at hh; exact absurd (by rw [hh]; simp) h
+      simp [h, h']
+
+/-- **(e) The wrapper changes exactly the selected columns, cell by cell.** For a frame `df` and a list
+`cs` of its column names, `convert_to_form(df, schema, form, cs)` succeeds; the frame afterwards has the
+same columns in the same order with the same number of cells; a column that is not selected is untouched;
+a selected column has `g` applied to each of its cells (as many times as its name is listed; once when
+the list has no repetition). -/
+theorem convert_df_columns (g : Str → Str) (df : DataFrame) (cs : List Str)
+    (hcs : ∀ c ∈ cs, c ∈ df.map (·.1)) :
+    ∃ r, convertFrame g df (some cs) = .ok r ∧ r.length = df.length ∧
+      ∀ (p : Nat) (name : Str) (cells : List Str), df[p]? = some (name, cells) →
+        r[p]? = some (name, cells.map (iter g (cs.count name))) ∧
+        (name ∉ cs → r[p]? = some (name, cells)) ∧
+        (cs.Nodup → name ∈ cs → r[p]? = some (name, cells.map g)) := by
+  refine ⟨_, convertColumns_spec g cs df hcs, by simp, ?_⟩
+  intro p name cells hp
+  have h1 : (df.map fun col : Column => (col.1, col.2.map (iter g (cs.count col.1))))[p]? =
+      some (name, cells.map (iter g (cs.count name))) := by
+    rw [List.getElem?_map, hp]; rfl
+  refine ⟨h1, ?_, ?_⟩
+  · intro hn
+    rw [h1, List.count_eq_zero_of_not_mem hn]
+    have : (iter g (0)) = id := by funext x; rfl
+    rw [this, List.map_id]
+  · intro hnd hm
+    rw [h1, count_eq_one_of_nodup hnd hm]
+    rfl
+
+/-- `columns=None` converts every column (column names pairwise distinct). -/
+theorem convert_df_all (g : Str → Str) (df : DataFrame) (hnd : (df.map (·.1)).Nodup) :
+    convertFrame g df none = .ok (df.map fun col => (col.1, col.2.map g)) := by
+  unfold convertFrame
+  simp only [Option.getD_none]
+  rw [convertColumns_spec g _ df (fun c hc => hc)]
+  congr 1
+  apply List.map_congr_left
+  intro col hcol
+  have : col.1 ∈ df.map (·.1) := List.mem_map.mpr ⟨col, hcol, rfl⟩
+  rw [count_eq_one_of_nodup hnd this]
+  rfl
+
+/-- a series is converted cell by cell, nothing else changes -/
+theorem convert_series (g : Str → Str) (cells : List Str) :
+    (convertSeries g cells).length = cells.length ∧
+    ∀ p : Nat, (convertSeries g cells)[p]? = (cells[p]?).map g := by
+  simp [convertSeries]
+
+
+/-- a column that does not exist: `KeyError` -/
+theorem convert_df_keyerror (g : Str → Str) (df : DataFrame) (c : Str) (cs : List Str)
+    (hc : c ∉ df.map (·.1)) : convertFrame g df (some (c :: cs)) = .error (.keyError c) := by
+  have : df.any (fun col => col.1 == c) = false := by
+    cases h : df.any (fun col => col.1 == c) with
+    | false => rfl
+    | true =>
+      obtain ⟨col, hcol, he⟩ := List.any_eq_true.mp h
+      exact absurd (List.mem_map.mpr ⟨col, hcol, by simpa using he⟩) hc
+  simp [convertFrame, convertColumns, convertColumn, this]
+
+/-! ### non-vacuity: a small vocabulary with case folding
+
+`Aa`, `Aa/Bb`, `Aa/Bb/Dd`, `Aa/Cc`, `Aa/Cc/#`; `foldEx` lowers `A B C D`. -/
+section BulkExample
+
+def lowerEx (c : Char) : Char :=
+  if c = 'A' then 'a' else if c = 'B' then 'b' else if c = 'C' then 'c' else if c = 'D' then 'd' else c
+def foldEx (s : Str) : Str := s.map lowerEx
+
+def exTags2 : List Name :=
+  [[['A', 'a']], [['A', 'a'], ['B', 'b']], [['A', 'a'], ['B', 'b'], ['D', 'd']],
+   [['A', 'a'], ['C', 'c']], [['A', 'a'], ['C', 'c'], ['#']]]
+
+theorem lowerEx_sharp (c : Char) (h : lowerEx c = '#') : c = '#' := by
+  unfold lowerEx at h
+  split at h
+  · exact absurd h (by decide)
+  · split at h
+    · exact absurd h (by decide)
+    · split at h
+      · exact absurd h (by decide)
+      · split at h
+        · exact absurd h (by decide)
+        · exact h
+
+theorem exBulkOK : BulkOK foldEx exTags2 where
+  tc := by decide
+  sd := by decide
+  clean := by decide
+  foldSharp := by decide
+  sharp := by
+    intro x hx
+    have e : foldEx ['#'] = ['#'] := by decide
+    rw [e] at hx
+    match x, hx with
+    | [], hx => simp [foldEx] at hx
+    | [c], hx =>
+      simp only [foldEx, List.map_cons, List.map_nil, List.cons.injEq, and_true] at hx
+      rw [lowerEx_sharp c hx]
+    | _ :: _ :: _, hx => simp [foldEx] at hx
+
+/-- `( bB/dd , cC/12 ),AA/BB/Ext , Zz` : mixed case, partial paths, a value, an extension, a group, an unknown tag -/
+def exText : Str :=
+  ['(', ' ', 'b', 'B', '/', 'd', 'd', ' ', ',', ' ', 'c', 'C', '/', '1', '2', ' ', ')', ',',
+   'A', 'A', '/', 'B', 'B', '/', 'E', 'x', 't', ' ', ',', ' ', 'Z', 'z']
+
+example : convertText (Vocab.build foldEx exTags2) foldEx [] .short exText =
+    ['(', 'D', 'd', ',', 'C', 'c', '/', '1', '2', ')', ',', 'B', 'b', '/', 'E', 'x', 't', ',', 'Z', 'z'] := by decide
+example : convertText (Vocab.build foldEx exTags2) foldEx [] .long exText =
+    ['(', 'A', 'a', '/', 'B', 'b', '/', 'D', 'd', ',', 'A', 'a', '/', 'C', 'c', '/', '1', '2', ')', ',',
+     'A', 'a', '/', 'B', 'b', '/', 'E', 'x', 't', ',', 'Z', 'z'] := by decide
+
+theorem exText_side : ∀ w ∈ tagTexts exText, noInteriorSharp w = true := by decide
+
+/-- the hypotheses of the bulk theorems hold together on `exText` -/
+example :
+    convertText (Vocab.build foldEx exTags2) foldEx [] .long
+        (convertText (Vocab.build foldEx exTags2) foldEx [] .short exText) =
+      convertText (Vocab.build foldEx exTags2) foldEx [] .long exText :=
+  (convert_short_long foldEx exTags2 exBulkOK [] exText exText_side).1
+example : (tagTexts (convertText (Vocab.build foldEx exTags2) foldEx [] .short exText)).length = 4 := by
+  rw [(convert_preserves_shape foldEx exTags2 exBulkOK.clean [] .short exText).2]; decide
+
+/-- **The side condition is needed, and the unchanged code violates idempotence there**: with a
+placeholder followed by more text (`cc/#/#/x`; in HED 8.3.0 `Label/#/#/x`), short form is `Cc/#/x`, and
+converting that again gives `Cc/x`. -/
+theorem convert_idempotent_counterexample :
+    let s : Str := ['c', 'c', '/', '#', '/', '#', '/', 'x']
+    convertText (Vocab.build foldEx exTags2) foldEx [] .short s = ['C', 'c', '/', '#', '/', 'x'] ∧
+    convertText (Vocab.build foldEx exTags2) foldEx [] .short
+      (convertText (Vocab.build foldEx exTags2) foldEx [] .short s) = ['C', 'c', '/', 'x'] := by decide
+
+end BulkExample
+
+end HedVerif.C03
+
+namespace HedVerif.C03
+open HedVerif.Schema
+
+theorem toLower_sharp (c : Char) (h : c.toLower = '#') : c = '#' := by
+  unfold Char.toLower at h
+  split at h
+  · rename_i hc
+    exfalso
+    have := congrArg (fun x => x.val.toNat) h
+    simp at this
+    have h1 : 65 ≤ c.val.toNat := by
+      have := hc.1; simpa [UInt32.le_iff_toNat_le] using this
+    have h2 : c.val.toNat ≤ 90 := by
+      have := hc.2; simpa [UInt32.le_iff_toNat_le] using this
+    have h3 : c.toNat = c.val.toNat := rfl
+    omega
+  · exact h
+
+/-- the driver's fold (ASCII lower-casing, `Driver.foldAscii`) satisfies the two `fold` clauses of `BulkOK` -/
+theorem foldLower_sharp : (∀ x : Str, x.map Char.toLower = (['#'] : Str).map Char.toLower → x = ['#']) ∧
+    (['#'] : Str).map Char.toLower = ['#'] := by
+  have e : (['#'] : Str).map Char.toLower = ['#'] := by decide
+  refine ⟨?_, e⟩
+  intro x hx
+  rw [e] at hx
+  match x, hx with
+  | [], hx => simp at hx
+  | [c], hx =>
+    simp only [List.map_cons, List.map_nil, List.cons.injEq, and_true] at hx
+    rw [toLower_sharp c hx]
+  | _ :: _ :: _, hx => simp at hx
 end HedVerif.C03
